@@ -173,7 +173,11 @@ var claSubsetsAlt = map[string]map[string]string{
 	"all": {},
 }
 
+// variant 0: the original rule; 1: subsets re-labelled; -1: the service has no DestinationRule (deleted)
 func subsetLabels(variant int, name string) map[string]string {
+	if variant == -1 {
+		return nil
+	}
 	if variant == 1 {
 		return claSubsetsAlt[name]
 	}
@@ -370,9 +374,21 @@ func (w *claWorld) setDR(name string, variant int) {
 	cfg := makeDR(svcDesc{name: name, minHealth: svcByHost(svcHost(name)).minHealth}, variant)
 	store := w.s.Store()
 	before := w.s.Discovery.InboundUpdates.Load()
-	if cur := store.Get(gvk.DestinationRule, cfg.Name, cfg.Namespace); cur != nil {
+	cur := store.Get(gvk.DestinationRule, cfg.Name, cfg.Namespace)
+	switch {
+	case variant == -1 && cur != nil:
+		if err := store.Delete(gvk.DestinationRule, cfg.Name, cfg.Namespace, nil); err != nil {
+			panic(err)
+		}
+	case variant == -1:
+	case cur != nil:
 		cfg.ResourceVersion = cur.ResourceVersion
 		if _, err := store.Update(cfg); err != nil {
+			panic(err)
+		}
+	default:
+		// a rule the proxy's previous SidecarScope does not know: only the current rule says the cluster is affected
+		if _, err := store.Create(cfg); err != nil {
 			panic(err)
 		}
 	}
@@ -780,7 +796,7 @@ func queryTok(d svcDesc, port int, subset string, unh bool, variant int) string 
 	return strings.Join([]string{
 		wire.Enc(svcHost(d.name)), claNs, strconv.Itoa(port), wire.Enc(subset),
 		portName, encLabels(subsetLabels(variant, subset)), wire.B(d.clusterLocal), wire.B(d.nodeLocal),
-		wire.B(unh && !d.minHealth), wire.B(d.persistent),
+		wire.B(unh && !(d.minHealth && variant != -1)), wire.B(d.persistent),
 	}, "|")
 }
 
@@ -927,7 +943,8 @@ func genCla(seed uint64, n int, outp string) {
 				if i == 0 {
 					pushRound(true, "")
 				}
-				drVar[d.name] = 1 - drVar[d.name]
+				// re-label the subsets, delete the rule, or create it again
+				drVar[d.name] = wire.Pick(r, map[int][]int{0: {1, 1, -1}, 1: {0, 0, -1}, -1: {0, 1}}[drVar[d.name]])
 				out.Line("drset", d.name, strconv.Itoa(drVar[d.name]))
 				pushRound(true, wire.Pick(r, []string{"delta", "delta", "sotw"}))
 				continue
@@ -987,7 +1004,7 @@ func oracleMember(q claQuery, unh bool, d svcDesc, variant int, p proxyDesc, sk 
 	}
 	drainingLabel := e.Labels[features.DrainingLabel] != ""
 	switch {
-	case e.HealthStatus == model.UnHealthy && (!unh || d.minHealth):
+	case e.HealthStatus == model.UnHealthy && (!unh || (d.minHealth && variant != -1)):
 		return false
 	case e.HealthStatus == model.Terminating:
 		return false
